@@ -1,5 +1,6 @@
 """C07 — Mode lifecycle is well-formed and leaves nothing behind."""
 import functools
+import os
 import re
 
 from vlib import Suite, zlist, zlit, coqlist
@@ -54,7 +55,7 @@ def gen_mode(rng, name, idx, names):
         cfg["start_events"].append("mode_%s_stopped" % name)          # restart on own stop
     if rng.random() < 0.25:
         cfg["stop_events"].append("mode_%s_%s" % (rng.choice(lower), rng.choice(["started", "stopped", "starting"])))
-    if rng.random() < 0.12:
+    if rng.random() < 0.12 and ("mode_%s_stopped" % name) not in cfg["start_events"]:
         cfg["stop_events"].append("mode_%s_started" % name)           # stops itself as soon as it is up
     if rng.random() < 0.3:
         cfg["use_wait_queue"] = True
@@ -227,10 +228,12 @@ class Recorder:
         self.keep = []
         self.depth = 0
         self.nested = False
+        self.outer = None
         self.last = self.snapshot()
         self.prefix = self.build_prefix()
         self.sorted_bad = []            # oracle data: active list not the sorted list of active modes
         self.requests = []
+        self.shared_queue_start = {}    # mode id -> its latest accepted start re-posted the caller's queue
 
     # -- attribution ---------------------------------------------------------------------------
     def key(self, kind, ident, obj=None):
@@ -274,7 +277,7 @@ class Recorder:
                 for ent in lst:
                     cb_self = getattr(ent.callback, "__self__", None)
                     if isinstance(cb_self, Mode) and cb_self.name in self.ids:
-                        tracked = any(sh.switch_name == sw.name and sh.callback == ent.callback and sh.ms == ent.ms
+                        tracked = any(sh.switch_name in (sw, sw.name) and sh.callback == ent.callback and sh.ms == ent.ms
                                       for sh in cb_self.switch_handlers)
                         snap.add((2 if tracked else 6, self.ids[cb_self.name], self.key("s", id(ent), ent)))
         for mn in self.ids:
@@ -347,8 +350,13 @@ class Recorder:
     def enter(self, kind, mode, args, kwargs):
         self.depth += 1
         if self.depth > 1:
-            self.nested = True          # the six methods never nest in MPF; if they do the tie is void
+            # the six methods do not nest, except that the fixed start() finishes a pending stop itself
+            if not (kind == "CbStopped" and self.outer == "Start"):
+                self.nested = True
             return None
+        self.outer = kind
+        if len(self.steps) > 4000:
+            raise RuntimeError("runaway history (generator flaw: endless start/stop chain)")
         snap = self.snapshot()
         self.env_diff(snap)
         if self.posted:
@@ -361,6 +369,7 @@ class Recorder:
         if kind == "Start":
             mp = kwargs.get("mode_priority", args[0] if args else None)
             arg = mp if isinstance(mp, int) else mode.config["mode"]["priority"]
+            self.start_has_queue = "queue" in kwargs
         return (kind, mode, arg, snap, mode._starting, pending, has_flag)
 
     def leave(self, tok, ret):
@@ -372,6 +381,8 @@ class Recorder:
         after = self.snapshot()
         if kind == "Start":
             status = 1 if (mode._starting and not was_starting) else 0
+            if status:
+                self.shared_queue_start[i] = bool(self.start_has_queue and mode.config["mode"]["use_wait_queue"])
         elif kind == "Stop":
             status = 1 if ret else 0
         elif kind == "CbStarted":
@@ -512,9 +523,12 @@ def run_life(case):
                     held.append(queue)
             machine.events.add_handler(b["event"], bh, priority=b["prio"])
         settle()
+        out["base_phases"] = None
         base_dump = canonical_dump(machine)
         base_delays = delay_dump(machine, names, devices)
         rec = Recorder(machine, names, devices)
+        out["base_phases"] = [rec.phase(machine.modes[n]) for n in names]
+        out["base_prio"] = [machine.modes[n].priority for n in names]
         out["prefix"] = rec.prefix
         out["steps"] = rec.steps
         _REC[0] = rec
@@ -560,9 +574,21 @@ def run_life(case):
         out["final_phases_before_stop"] = [rec.phase(machine.modes[n]) for n in names]
         for r in case["reactions"]:
             pass
-        for n in names[1:]:
-            machine.modes[n].stop()
-            settle()
+        out["shared_queue_start"] = sorted(i for i, v in rec.shared_queue_start.items() if v)
+        # back to the configuration the machine was in when recording started
+        def restore():
+            moved = False
+            for n, bp in zip(names, out["base_phases"]):
+                mode = machine.modes[n]
+                if bp == 0 and (mode._active or mode._starting):
+                    mode.stop()
+                    moved = True
+                elif bp == 2 and not (mode._active or mode._starting):
+                    mode.start()
+                    moved = True
+                settle()
+            return moved
+        restore()
         for _ in range(4):
             while held:
                 held.pop(0).clear()
@@ -571,23 +597,13 @@ def run_life(case):
             settle()
         # generated modes chained to lifecycle events may have come up again: stop until stable (bounded)
         for _ in range(6):
-            again = [n for n in names[1:] if machine.modes[n]._active or machine.modes[n]._starting]
-            if not again:
+            if not restore():
                 break
-            for n in again:
-                machine.modes[n].stop()
-                settle()
             while held:
                 held.pop(0).clear()
                 settle()
             rig.advance(3.0)
             settle()
-        if not machine.modes["attract"]._active:
-            machine.modes["attract"].start()
-            settle()
-            while held:
-                held.pop(0).clear()
-                settle()
         rig.advance(3.0)
         settle()
         quiet("end")
@@ -595,7 +611,7 @@ def run_life(case):
         out["final_prio"] = [machine.modes[n].priority for n in names]
         end_dump = canonical_dump(machine)
         end_delays = delay_dump(machine, names, devices)
-        at_base = out["final_phases"] == [2] + [0] * (len(names) - 1) and out["final_prio"][0] == 10
+        at_base = out["final_phases"] == out["base_phases"] and out["final_prio"] == out["base_prio"]
         out["at_base"] = at_base
         if at_base:
             out["dump_diff"] = [["+", x] for x in multiset_diff(end_dump, base_dump)][:10] + \
@@ -670,8 +686,9 @@ def oracle_life(case, out):
     for s in out["steps"]:
         for e in s[4]:
             posted.setdefault(e // 8, []).append(e % 8)
-    # recording starts with attract up: its cycle position is 3
-    start_pos = {0: 3}
+    # modes that are up when recording starts are at cycle position 3
+    start_pos = {i: 3 for i, p in enumerate(out.get("base_phases") or []) if p == 2}
+    stuck_known = set(out.get("shared_queue_start") or [])
     for i, seq in posted.items():
         pos = start_pos.get(i, 0)
         for e in seq:
@@ -682,8 +699,9 @@ def oracle_life(case, out):
             pos = (pos + 1) % 6
         else:
             if pos not in (0, 3):
-                fails.append({"sig": "incomplete-transition", "what": "mode %s ends inside a transition after %s" %
-                              (NAMES[i], PHASES[(pos - 1) % 6])})
+                known = pos == 2 and i in stuck_known
+                fails.append({"sig": "waitq-shared-queue-start-stuck" if known else "incomplete-transition",
+                              "what": "mode %s ends inside a transition after %s" % (NAMES[i], PHASES[(pos - 1) % 6])})
     seen = {}
     for i, e in out["handler_trace"]:
         seen.setdefault(i, []).append(e)
@@ -693,8 +711,12 @@ def oracle_life(case, out):
         traced.setdefault(NAMES.index(mm.group(1)), set()).add(PHASES.index(mm.group(2)))
     for i, seq in seen.items():
         want = [e for e in posted.get(i, []) if e in traced.get(i, ())]
-        if seq != want:
-            fails.append({"sig": "order-delivered", "what": "mode %s: handlers saw %s but %s was posted" %
+        if i in stuck_known and want[:len(seq)] == seq:
+            continue
+        # delivery is depth-first (C01): events posted from a handler overtake events already queued, so handlers
+        # may see will_stop before started.  The property orders the posts; delivery must be exactly-once.
+        if sorted(seq) != sorted(want):
+            fails.append({"sig": "delivered-not-once", "what": "mode %s: handlers saw %s but %s was posted" %
                           (NAMES[i], [PHASES[x] for x in seq], [PHASES[x] for x in want])})
     if out.get("outside_posts"):
         fails.append({"sig": "order-posted", "what": "lifecycle event posted outside a lifecycle step: %s" % out["outside_posts"]})
@@ -710,11 +732,15 @@ def oracle_life(case, out):
     if out.get("at_base") and out.get("dump_diff"):
         fails.append({"sig": "registry-not-restored", "what": "registries differ from the pre-start dump: %s" % out["dump_diff"][:6]})
     # 4. every accepted start / stop completed once the blockers were released
-    if out.get("final_phases_before_stop") and any(p not in (0, 2) for p in out["final_phases_before_stop"]):
-        fails.append({"sig": "transition-stuck", "what": "after all queues were released and 18 s passed the modes are in phases %s" %
-                      out["final_phases_before_stop"]})
-    elif out.get("final_phases") and any(p not in (0, 2) for p in out["final_phases"]):
-        fails.append({"sig": "transition-stuck", "what": "final phases %s" % out["final_phases"]})
+    for key in ("final_phases_before_stop", "final_phases"):
+        ph = out.get(key) or []
+        bad = [i for i, p in enumerate(ph) if p not in (0, 2)]
+        if bad:
+            # exactly the recorded defect: a use_wait_queue mode whose start re-posted the caller's locked queue
+            known = all(ph[i] == 1 and i in stuck_known for i in bad)
+            fails.append({"sig": "waitq-shared-queue-start-stuck" if known else "transition-stuck",
+                          "what": "after all queues were released and 18 s passed the modes are in phases %s (%s)" % (ph, key)})
+            break
     return fails
 
 
@@ -753,7 +779,7 @@ HDR_LIFE = "From C07 Require Import Model.\nDefinition run := life_run.\nDefinit
 
 SUITES = [
     Suite("life", gen_life, run_life, HDR_LIFE, coq_life, oracle_life, shrink_life, nontrivial_life,
-          {"quick": 320, "thorough": 10000}, describe=describe_life, shard=40, case_timeout=120),
+          {"quick": int(os.environ.get("C07_N", "280")), "thorough": 10000}, describe=describe_life, shard=40, case_timeout=120),
 ]
 
 LEVEL_TEXT = ("Machine-checked proof (Coq) over a transition-system model of Mode.start/_started/stop/_stopped/"
